@@ -428,7 +428,9 @@ def run_impl_lines(exe, workdir, lines, pre_args=(), timeout=1800, env=None, per
     start = 0
     n = len(lines)
     guard = 0
-    while start < n and guard < 50:
+    ntimeouts = 0
+    # a violation is established by the first crash/hang: resume only a few times
+    while start < n and guard < 8 and ntimeouts < 2:
         guard += 1
         cf = os.path.join(workdir, "impl-cases-%d.txt" % os.getpid())
         with open(cf, "w") as f:
@@ -444,6 +446,9 @@ def run_impl_lines(exe, workdir, lines, pre_args=(), timeout=1800, env=None, per
         out_lines += got
         start += len(got)
         if start < n:
+            if rc == "timeout":
+                ntimeouts += 1
+                timeout = min(timeout, 120)
             crashes[start] = (rc, err[-2500:])
             out_lines.append("CRASH %s" % rc)
             start += 1
